@@ -13,7 +13,9 @@ FRAGS = ["shoot:", "shoot: ", "Shoot:", "SHOOT: ", " shoot:", "shoot", "Get", "g
          "/users", "/{id}", "{id}", "{user_id}", "{}", "{a-b}", "{{x}", "}", "{", ";", " ;", " ", "  ", "\t", "\n", "\n", "\nshoot: ", "alias=", " alias=",
          "xalias=", "Alias=", "headers=", " headers=", "{a:b}", "{userID:id}", "{A-b : v w}", "{k:}", "{:v}", "{k::v}", "{k: */*}", "{k|2:x}", ",", "},{",
          "{Accept:text/plain}", "{X-Env: test },", "\n{B:2}", "\n {C:3},", "\nfoo", "x", "_", "9", "-", ".", ":", "=", "a", "alias", "alias=x", "alias=size ",
-         "alias=page_idx,omit", "note", "; note", ";alias={p:q}"]
+         "alias=page_idx,omit", "note", "; note", ";alias={p:q}", 'Get("/a/{id}")', "Put(/x/{y});", "delete(/q) ;", 'POST( "/p" )', "patch(/a)b)", "Get(/a\n)",
+         " headers={A:1}", " headers={A:1},{B:2}", " headers= {X-K: v w},", "\n{C:3}", "\n  {D:4},", " alias={a:b}", " alias={a:b},{c:d};", "\nshoot:\n Get(/z)",
+         "shoot:\nalias={n:m}", "shoot:\nheaders={N:m}", "\r", "\x0b", "\x0c"]
 SHAPED = ["", "shoot: Get(\"/users/{id}\")", "shoot: Get(/users/{id});", "shoot: GET( /a b/{x} ) ;  ", "shoot: alias={userID:id},{pageSize:size}",
           "shoot: Get(\"/u\")\nshoot: alias={a:b};x", "shoot: headers={Authorization:Bearer abc},{X-Env:test}", "shoot: headers={A:1},\n{B:2}\n",
           "shoot: headers= {A:1}, {B:2},\n  {C:3}\nshoot: Get(/x)", "shoot: Get()", "shoot: Get(\"\")", "shoot: Get(\"a\"b\")", "shoot:get(/x)", "shoot:  Put((/x))y)",
